@@ -1,5 +1,6 @@
 import Driver.Loop
+import Driver.Ops.C04
 import Driver.Ops.C05
-/- pvdrv-C05: model driver for property C05.  Import further Driver.Ops.* modules here if this
-   property's harness needs operations defined for another property. -/
-def main : IO Unit := Driver.run (Driver.C05.ops)
+/- pvdrv-C05: model driver for property C05 (graph figures under a kept set come from the C04
+   operations; the node selection of text reports from Driver.Ops.C05). -/
+def main : IO Unit := Driver.run (Driver.C04.ops ++ Driver.C05.ops)
